@@ -470,7 +470,10 @@ func init() {
 			"offsets, pre-set traces, full-width and Latin-1 fields; ValidateOpts on the file: nil, zero, every single flag in turn, random subsets, all flags; " +
 			"paths: json.Marshal -> ach.FileFromJSON, json.Marshal -> (*File).UnmarshalJSON, Writer -> Reader -> json.Marshal -> FileFromJSON, and the two achcli -reformat directions (its few lines replicated: package main); " +
 			"distinct = distinct (SECs, categories, addenda kinds, offsets, flag set); non-trivial = every case (each has at least one entry)",
-		Run: run,
+		Run: func(t *T) {
+			run(t)
+			cli(t)
+		},
 	})
 }
 
